@@ -7,6 +7,10 @@ pref = sys.argv[1:]
 ids = sorted(d for d in os.listdir(os.path.join(V, "seeded")) if os.path.exists(os.path.join(V, "seeded", d, "meta.json")))
 if pref:
     ids = [i for i in ids if any(i.startswith(p) for p in pref)]
+if os.environ.get("SEEDED_SKIP_FILE"):        # ids already done (one per line)
+    done = set(open(os.environ["SEEDED_SKIP_FILE"]).read().split()); ids = [i for i in ids if i not in done]
+if os.environ.get("SEEDED_SUFFIXES"):         # e.g. "m1 m2 m3": only these rounds
+    suf = set(os.environ["SEEDED_SUFFIXES"].split()); ids = [i for i in ids if i.split("_", 1)[1] in suf]
 # ids of one property run one after the other (they share that property's run directory); properties are spread over LANES parallel lanes by estimated cost
 import concurrent.futures as cf, threading
 LANES = int(os.environ.get("SEEDED_LANES", "4"))
